@@ -242,7 +242,8 @@ class Ctx:
                     continue
                 if f.get("clause") not in (None, cl):
                     continue
-                if f.get("site") not in (None, st):
+                fs = f.get("site")
+                if fs is not None and fs != st and not (fs.endswith("*") and st.startswith(fs[:-1])):
                     continue
                 if f.get("stage") not in (None, stage):
                     continue
